@@ -742,6 +742,7 @@ class Engine:
         # havoc
         self.havoced = True
         types = inv.get('types', {})
+        self.havoc_text = env.locals.get(inv.get('text_var', 'text'))
         for nm in sorted(assigned):
             if nm in env.locals or nm in types:
                 env.locals[nm] = self.havoc_like(env.locals.get(nm), types.get(nm), nm)
@@ -778,6 +779,9 @@ class Engine:
             self.assume(k >= 0)
             env.locals['__k_%d' % ordn] = VI(k)
         assume_inv()
+        for gname, gexpr in inv.get('snapshot', {}).items():
+            # values at the head of the arbitrary iteration, for use by the per-iteration obligations
+            env.locals['__g_' + gname] = self.eval_spec(gexpr, env, self.ghost_env(env))
         declared = set()
         for hx in inv.get('havoc_heap', []):
             r = self.eval_spec(hx, env, self.ghost_env(env))
@@ -865,7 +869,7 @@ class Engine:
             if isinstance(h, HObj):
                 flds = {k: v for k, v in h.fields.items() if ('f', a, k) not in declared
                         and not (h.lazy and isinstance(v, VO) and v.name == '%s.%s' % (h.name or ('obj%d' % a), k))}
-                out[a] = 'Obj(%s|%s)' % (h.name, ','.join('%s=%s' % (k, cn.val(v)) for k, v in sorted(flds.items())))
+                out[a] = 'Obj(%s|%s)' % (h.name, ','.join('%s=%s' % (k, cn.val(v)) for k, v in sorted(flds.items(), key=lambda kv: str(kv[0]))))
             else:
                 out[a] = cn.heapobj(h)
         return out
@@ -905,6 +909,18 @@ class Engine:
         raise Unsupported('iter_model of %r' % (it,))
 
     def havoc_like(self, old, typ, name):
+        if typ == 'tagmatch?':
+            # result of a tag matcher: None, or a match object with a fresh non-empty span (facts about where it lies
+            # come from the invariant)
+            if self.decide(2, 'havoc %s is None' % name) == 1:
+                return NONE
+            st, en = self.fresh_int('mstart'), self.fresh_int('mend')
+            self.assume(en > st)
+            txt = self.havoc_text
+            sz = self.as_z3_str(txt)
+            self.assume(z3.And(st >= 0, en <= z3.Length(sz)))
+            grp = [VS(z3.SubString(sz, st, en - st))] + [VS(z3.String(self.fresh('grp'))) for _ in range(3)]
+            return self.alloc(HObj(None, {'groups': grp, 'spans': [(VI(st), VI(en))] * 4, 'text': txt}, name='match'))
         if typ in ('real?', 'opaque?', 'int?'):
             # None or a value of the type: decided by a fork (the invariant prunes impossible combinations)
             if self.decide(2, 'havoc %s is None' % name) == 1:
@@ -1373,6 +1389,16 @@ class Engine:
             'modelled heap as they found them (protocol proved for the repo\'s own render functions)')
         lbl = label or ('call %s' % getattr(fn, 'name', '?'))
         self.trace.append(('call', getattr(fn, 'name', repr(fn)), tuple(_tr(a) for a in args), fn, list(args)))
+        if callable(getattr(fn, 'proto', None)):
+            # a contract-supplied abstract behaviour for this callable, exceptional outcomes included (recorded on the
+            # trace like any other call)
+            try:
+                r = fn.proto(self, fn, list(args))
+            except PyRaise:
+                self.trace.append(('raised-by', getattr(fn, 'name', repr(fn))))
+                raise
+            self.trace.append(('returned', getattr(fn, 'name', repr(fn)), getattr(r, 'name', repr(r)), r))
+            return r
         nm = getattr(fn, 'name', None)
         model_nc = (getattr(self.cur_contract, 'model_not_callable', False) and isinstance(fn, VO) and label is None
                     and getattr(fn, 'proto', None) is None)
@@ -1386,11 +1412,6 @@ class Engine:
             e = VExc('Exception', [], sym=True, uid=self.fresh('exc'))
             self.trace.append(('raised-by', getattr(fn, 'name', repr(fn))))
             raise PyRaise(e)
-        if callable(getattr(fn, 'proto', None)):
-            # a contract-supplied abstract behaviour for this callable (recorded on the trace like any other call)
-            r = fn.proto(self, fn, list(args))
-            self.trace.append(('returned', getattr(fn, 'name', repr(fn)), getattr(r, 'name', repr(r)), r))
-            return r
         r = self.fresh_opaque('ret')
         if getattr(fn, 'proto', None) == 'int-valued':
             self.tfacts[(r.name, 'int')] = True
@@ -1462,6 +1483,16 @@ class Engine:
             return e
         ref = self.alloc(HObj(cls, {}))
         init = cls.lookup('__init__')
+        if init is None and any(isinstance(b, VBI) and b.name.endswith('RestrictionCapableEval') for c in cls.mro() for b in c.bases):
+            # library contract (assumed): RestrictionCapableEval(expr) compiles the expression text and raises
+            # SyntaxError for text that is not a valid (restricted) Python expression
+            self.lib_used.add('RestrictionCapableEval(expr): returns an expression object or raises SyntaxError(message)')
+            if not self.mod_init and self.decide(2, 'Eval() syntax error') == 1:
+                raise PyRaise(VExc('SyntaxError', [VS(z3.String(self.fresh('syntaxmsg')))]))
+            h = self.heap[ref.addr]
+            h.lazy = True
+            h.fields['expr'] = args[0] if args else NONE
+            return ref
         if init is not None:
             self.call(init, [ref] + list(args), kwargs)
         elif args or kwargs:
@@ -1919,7 +1950,7 @@ class _Canon:
                                            sorted(map(repr, h.deleted)))
         if isinstance(h, HObj):
             return 'Obj(%s,%s,%s,%s|%s)' % (h.cls.qual if isinstance(h.cls, VCls) else h.cls, h.lazy, self.nm(h.name), h.prov,
-                                            ','.join('%s=%s' % (k, self.val(v)) for k, v in sorted(h.fields.items())))
+                                            ','.join('%s=%s' % (k, self.val(v)) for k, v in sorted(h.fields.items(), key=lambda kv: str(kv[0]))))
         return repr(h)
 
 
